@@ -554,6 +554,13 @@ def step (s : State) (toks : List String) (impl : String) : State × Res :=
   | ["r1", n] =>
     -- modelling fact R1: once `done` is closed the loop takes no task, even from submitters parked before
     (s, { model := s!"r1:ran=0:bad=0:of={n}", prop := "C08" })
+  | ["coverage"] =>
+    -- last op of a generated run: every situation the generator aims at was reached at least once
+    let lacking := ["connected", "writeparked", "tcpfull", "relaystalled"].filter fun k => (field (impl.drop 4).toString k).toNat?.getD 0 == 0
+    let why : Option String :=
+      if lacking.isEmpty then none
+      else some ("(C) the generated sessions never reached: " ++ ", ".intercalate lacking ++ " - the harness lost coverage (" ++ impl ++ ")")
+    (({} : Sess), { model := impl, monitor := why, prop := "C08" })
   | "new" :: id =>
     if impl.startsWith "err:" then (({} : Sess), { model := "recorded", monitor := some ("session could not start: " ++ impl), prop := "C08" })
     else
